@@ -131,10 +131,16 @@ def run(ctx):
             src = emu.Source(purity=pu, brightness=br, indistinguishability=ind, probability_threshold=thr)
             smp = emu.Sampler(c, State(occ), source=src, backend=backend)
             dist = {tuple(s): p for s, p in smp.probability_distribution.items()}
-        except ZeroDivisionError:
-            ctx.count("threshold_removed_everything")     # threshold above every input probability
-            dist = None
         except Exception as e:  # noqa: BLE001
+            from .. import srcref  # noqa: PLC0415
+            ref_stats = srcref.input_statistics(full_occ, br, pu, ind, 0.0) if thr else {}
+            if thr and not any(p >= thr * (1 - 1e-9) for p in ref_stats.values()):
+                # the threshold exceeds every input probability: no input is left; whatever the sampler
+                # does with an empty input set is outside the property (recorded, not judged)
+                ctx.count("threshold_removed_everything:" + type(e).__name__)
+                ctx.case(("threshold_removed_everything",), False)
+                drain_into(ctx, case)
+                continue
             ctx.violation(f"probability_distribution raised {type(e).__name__}: {e}", case=case,
                           mechanism="source_raised:" + type(e).__name__, monitor="driver")
             dist = None
